@@ -47,10 +47,10 @@ MOD_FUNCS = {
 
 # properties anchored in pyemv/tlv.py: the translated decoder / encoder and their refinement theorems
 TLV_FUNCS = {
-    "C09": ["tlv_decode", "decode_loop_eq"],
-    "C17": ["tlv_decode", "decode_loop_eq"],
+    "C09": ["tlv_decode", "decode_loop_eq", "tlv_decode_sim"],
+    "C17": ["tlv_decode", "decode_loop_eq", "tlv_decode_sim"],
     "C10": ["tlv_encode", "encode_for_eq"],
-    "C18": ["tlv_decode", "decode_loop_eq", "tlv_encode", "encode_for_eq"],
+    "C18": ["tlv_decode", "decode_loop_eq", "tlv_decode_sim", "tlv_encode", "encode_for_eq"],
     "C14": ["tlv_decode", "tlv_encode"],
 }
 
